@@ -1,8 +1,10 @@
 package main
 
 import (
+	"encoding/hex"
 	"encoding/json"
 	"strings"
+	"unicode/utf8"
 
 	"verif/harness/hx"
 	"verif/harness/rt"
@@ -17,10 +19,34 @@ import (
 type histEvent struct {
 	Src string `json:"src"` // svc | man
 	payload
+	// Amp (Long/LongAt/LongCmd/Pad only): the delivered text is the payload with an over-long line inserted and/or
+	// padded with comment lines to several KB (amp.expandLines; the driver expands it the same way)
+	Amp *amp `json:"amp,omitempty"`
+}
+
+func (e *histEvent) full() string {
+	if e.Amp == nil {
+		return e.String()
+	}
+	return e.Amp.expandLines(e.String())
 }
 
 type histIn struct {
 	Events []histEvent `json:"events"`
+	// Fmt: log.routes.format of the session (logRoutes runs on the update goroutine after every installation):
+	// "" = delta, detail, all, anything else = invalid
+	Fmt string `json:"fmt,omitempty"`
+	// Via: "" = every event goes through the scripted backend; "static" / "file" = the FIRST event (always a
+	// service update) is what the real static / file backend, made by the real initBackend, delivers
+	Via string `json:"via,omitempty"`
+}
+
+func setPayload(cmd map[string]interface{}, text string) {
+	if utf8.ValidString(text) {
+		cmd["text"] = text
+	} else {
+		cmd["hex"] = hex.EncodeToString([]byte(text))
+	}
 }
 
 func runHistory(raw json.RawMessage) (interface{}, error) {
@@ -28,7 +54,7 @@ func runHistory(raw json.RawMessage) (interface{}, error) {
 	if err := json.Unmarshal(raw, &in); err != nil {
 		return nil, err
 	}
-	c, err := session("watchbackend")
+	c, err := sessionRaw("watchbackend")
 	if err != nil {
 		return nil, err
 	}
@@ -36,36 +62,79 @@ func runHistory(raw json.RawMessage) (interface{}, error) {
 	steps := []interface{}{}
 	out := map[string]interface{}{}
 	svc, man := "", ""
-	for _, e := range in.Events {
-		text := e.String()
+	var registered, first json.RawMessage
+	fresh := true
+	for i := range in.Events {
+		e := &in.Events[i]
+		text := e.full()
 		op := "svc"
-		if e.Src == "man" {
+		if e.Src == "man" && !(i == 0 && in.Via != "") {
 			op, man = "man", text
 		} else {
 			svc = text
 		}
 		cmd := map[string]interface{}{"op": op, "n": 2}
-		if e.Hex != "" {
-			cmd["hex"] = e.Hex
-		} else {
-			cmd["text"] = e.Text
+		if fresh {
+			// the session starts here: routes format; for via the first update comes from the real backend
+			fresh = false
+			reset := map[string]interface{}{"op": "reset", "fmt": in.Fmt}
+			viaFirst := i == 0 && (in.Via == "static" || in.Via == "file")
+			if viaFirst {
+				reset["via"] = in.Via
+				setPayload(reset, text)
+			}
+			reply, cerr := c.call(reset)
+			if cerr != nil {
+				// a child left over from an earlier case that does not answer: start a new one, once (a panic this
+				// very text causes happens again there)
+				if c, err = sessionRestart("watchbackend"); err != nil {
+					return nil, err
+				}
+				reply, cerr = c.call(reset)
+			}
+			if cerr != nil {
+				out["crash"] = c.crash(cerr)
+				break
+			}
+			if viaFirst {
+				cmd = nil
+				first = reply
+			}
 		}
-		reply, cerr := c.call(cmd)
-		if cerr != nil {
-			out["crash"] = c.crash(cerr)
-			break
+		var reply json.RawMessage
+		if cmd != nil {
+			setPayload(cmd, text)
+			var cerr error
+			reply, cerr = c.call(cmd)
+			if cerr != nil {
+				out["crash"] = c.crash(cerr)
+				break
+			}
+		} else {
+			reply = first
 		}
 		var rep struct {
-			Table json.RawMessage `json:"table"`
+			Table      json.RawMessage `json:"table"`
+			Registered json.RawMessage `json:"registered"`
 		}
 		if err := json.Unmarshal(reply, &rep); err != nil || rep.Table == nil {
 			out["crash"] = map[string]interface{}{"badReply": string(reply)}
 			break
 		}
+		registered = rep.Registered
 		full := svc + "\n" + man
 		b, _ := buildText(full)
 		o.addText(full)
-		steps = append(steps, map[string]interface{}{"active": rep.Table, "build": b})
+		step := map[string]interface{}{"active": rep.Table, "build": b}
+		if b["table"] != nil {
+			if n, ok := parsedDefs(full); ok {
+				step["ndefs"] = n
+			}
+		}
+		steps = append(steps, step)
+	}
+	if registered != nil {
+		out["registered"] = registered
 	}
 	out["steps"] = steps
 	out["oracle"] = o.json()
@@ -82,9 +151,16 @@ var invalidLines = []string{
 	"route del svc-a /x http://[::1", "route", "route  ", "x route add svc-a /x http://a:1/",
 }
 
+// the small universe of the route streams plus the option ParseAliases looks for
+var c02U = func() rt.Universe {
+	u := rt.Small
+	u.Opts = append(append([][]string{}, u.Opts...), []string{"register", "alias-a"}, []string{"register", "alias-b"}, []string{"register", ""})
+	return u
+}()
+
 func genValidSvc(r *hx.Rand) ([]rt.Def, string) {
 	n := r.Intn(5)
-	ds := rt.Small.GenScript(r, n)
+	ds := c02U.GenScript(r, n)
 	return ds, rt.Text(ds)
 }
 
@@ -93,7 +169,7 @@ func genValidMan(r *hx.Rand, svc []rt.Def) string {
 	have := append([]rt.Def{}, svc...)
 	var ls []string
 	for i := 0; i < n; i++ {
-		d := rt.Small.GenDef(r, have)
+		d := c02U.GenDef(r, have)
 		have = append(have, d)
 		ls = append(ls, d.Line())
 		if r.Chance(1, 6) {
@@ -116,39 +192,75 @@ func breakText(r *hx.Rand, text string) string {
 	return strings.Join(out, "\n")
 }
 
+// brokenFirst puts a line with a SYNTAX error in front of a text (the parser stops there and leaves the rest of the
+// text unread).
+func brokenFirst(r *hx.Rand, text string) string {
+	bad := r.Pick([]string{"route add", "route add svc-a", "garbage", "route add svc-a /x http://a:1/ weight abc", "route del", "rout add svc-a /x http://a:1/", "route weight"})
+	if text == "" {
+		return bad
+	}
+	return bad + "\n" + text
+}
+
 func genHistory(r *hx.Rand, i int) interface{} {
 	n := 2 + r.Intn(7)
 	if r.Chance(1, 12) {
 		n = 8 + r.Intn(14)
 	}
 	var in histIn
+	in.Fmt = r.Pick([]string{"", "", "", "delta", "detail", "detail", "all", "all", "bogus", "DETAIL"})
+	if c := r.Intn(100); c < 10 {
+		in.Via = "static"
+	} else if c < 18 {
+		in.Via = "file"
+	}
 	var svcDefs []rt.Def
 	prev := map[string][]string{}
 	g := hostileGen{r}
 	for k := 0; k < n; k++ {
 		src := "svc"
-		if r.Chance(2, 5) {
+		if r.Chance(2, 5) && !(k == 0 && in.Via != "") {
 			src = "man"
 		}
+		valid := func() string {
+			if src == "svc" {
+				var t string
+				svcDefs, t = genValidSvc(r)
+				return t
+			}
+			return genValidMan(r, svcDefs)
+		}
 		var text string
+		var a *amp
 		c := r.Intn(100)
 		switch {
-		case c < 55:
-			if src == "svc" {
-				svcDefs, text = genValidSvc(r)
-			} else {
-				text = genValidMan(r, svcDefs)
-			}
-		case c < 82:
+		case c < 50:
+			text = valid()
+		case c < 74:
 			var base string
 			if src == "svc" {
-				var ds []rt.Def
-				ds, base = genValidSvc(r)
-				_ = ds
+				_, base = genValidSvc(r)
 			} else {
 				base = genValidMan(r, svcDefs)
 			}
 			text = breakText(r, base)
+		case c < 78:
+			// several KB: a valid text, or one whose FIRST line is a syntax error, padded with comment lines
+			a = &amp{Pad: 70 + r.Intn(200)}
+			if r.Chance(2, 3) {
+				if src == "svc" {
+					_, text = genValidSvc(r)
+				} else {
+					text = genValidMan(r, svcDefs)
+				}
+				text = brokenFirst(r, text)
+			} else {
+				text = valid()
+			}
+		case c < 82:
+			// a line around / beyond the scanner's limit somewhere in an otherwise valid text
+			text = valid()
+			a = &amp{Long: []int{65534, 65535, 65536, 65537, 70000, 140000}[r.Intn(6)], LongAt: r.Intn(4), LongCmd: r.Chance(1, 3)}
 		case c < 93 && len(prev[src]) > 0:
 			text = r.Pick(prev[src]) // an earlier text of the same source: unchanged or reverted configuration
 		case c < 97:
@@ -156,8 +268,10 @@ func genHistory(r *hx.Rand, i int) interface{} {
 		default:
 			text = g.mangleBytes(g.text(1+r.Intn(3), 10))
 		}
-		prev[src] = append(prev[src], text)
-		in.Events = append(in.Events, histEvent{Src: src, payload: mkPayload(text)})
+		if a == nil {
+			prev[src] = append(prev[src], text)
+		}
+		in.Events = append(in.Events, histEvent{Src: src, payload: mkPayload(text), Amp: a})
 	}
 	return in
 }
